@@ -553,6 +553,8 @@ def format_datetime(format: str, value: datetime.datetime) -> str:
     if tzname is not None:
         tz += ":" + tzname
 
+    # strftime("%Y") does not zero-pad years before 1000 on every platform.
+    format = format.replace("%Y", f"{value_bumped.year:04d}")
     return f"{value_bumped.strftime(format)}.{ms:03d}[{tz}]"
 
 
